@@ -65,8 +65,10 @@ class NodeVisitor(visitor.PartialVisitor[ast.AST]):
             # The 'else' block of a try or loop statement and the 'finally' block
             # run after the body, not instead of it (unlike the 'else' of an 'if').
             for fieldname in ('orelse', 'finalbody'):
-                for child in getattr(node, fieldname, None) or ():
-                    if isinstance(child, ast.AST):
+                block = getattr(node, fieldname, None)
+                # it's an expression, not a list of statements, for ast.IfExp
+                if isinstance(block, list):
+                    for child in block:
                         yield child
 
 class NodeVisitorExt(visitor.VisitorExt[ast.AST]):
